@@ -330,8 +330,9 @@ def _order_eig_policy(ctx):
     return P(model_overwrite=True, overwrite_table=_OW['tab'])
 
 
-@scenario('C06', 'routines', lambda tier: [{'routine': r, 'rank': k, 'then': q, 'order': o} for o in ((2,) if tier == 'quick' else (2, 3)) for r in ROUTINES for k in (2, 1)
-                                         for q in ('ortho_left()', 'ortho_right()')])
+@scenario('C06', 'routines', lambda tier: [{'routine': r, 'rank': k, 'then': q, 'order': o} for o in ((2,) if tier == 'quick' else (2, 3)) for r in ROUTINES for k in (2, 1, 3)
+                                         for q in ('ortho_left()', 'ortho_right()') if not (k == 3 and (q == 'ortho_left()' or r.startswith(('regression', 'tedmd', 'tgedmd', 'transform'))))])
+                                         # rank 3 on modes of size 2: an over-parameterised argument, which any orthonormalisation of the caller's object would shrink
 def routines(ctx, routine, rank, then, order=2):
     """one call of a solver / integrator / data-driven routine, then one in-place operation on each returned train: every argument and every other
     returned train keeps value and metadata; every returned train is consistent"""
